@@ -247,6 +247,16 @@ Rhs(o, item, names, values) ==   \* [ok, v]; always evaluated on the PRE-update 
                           ELSE [ok |-> TRUE, v |-> Mk("L", a.v.l \o b.v.l)]
     [] OTHER        -> [ok |-> FALSE, v |-> NullV]
 
+\* if_not_exists(path, default) whose path EXISTS while the default cannot be evaluated (list_append on a missing attribute ...):
+\* the value of the path, or an error because the default is looked at anyway - the properties do not say
+RECURSIVE SoftRhs(_,_,_,_)
+SoftRhs(o, item, names, values) ==
+  CASE o.k \in {"plus", "minus", "lapp"} -> SoftRhs(o.l, item, names, values) \/ SoftRhs(o.r, item, names, values)
+    [] o.k = "ine" -> ResolveOK(o.p, names) /\
+                      (IF GetPath(item, Resolve(o.p, names)).p THEN ~Rhs(o.v, item, names, values).ok ELSE SoftRhs(o.v, item, names, values))
+    [] OTHER -> FALSE
+SoftDefault(u, item, names, values) == \E i \in DOMAIN u.set : SoftRhs(u.set[i].v, item, names, values)
+
 SetTypes == {"SS", "NS", "BS"}
 ElemEq(t, x, y) == IF t = "NS" THEN DEq(x, y) ELSE x = y
 UnionSeq(t, a, b) ==   \* a followed by the members of b not in a
